@@ -5,6 +5,7 @@ package app
 import (
 	"encoding/json"
 	"fmt"
+	"github.com/yandex/mysync/internal/mysql"
 	"os"
 	"sort"
 	"strings"
@@ -52,16 +53,18 @@ type c01Promotion struct {
 }
 
 type c01State struct {
-	tickMaster    map[string]string   // proc -> master key when its tick began
-	tickActive    map[string][]string // proc -> active list when its tick began
-	tickStmt      map[string]int      // proc -> statement log length when its tick began
-	promotions    []c01Promotion
-	semi          bool
-	wait          int
-	asyncLag      time.Duration
-	marked        map[string]bool // hosts marked for recovery (C11), refreshed at tick start
-	faultFree     bool
-	sawSplitBrain bool
+	tickMaster        map[string]string   // proc -> master key when its tick began
+	tickActive        map[string][]string // proc -> active list when its tick began
+	tickStmt          map[string]int      // proc -> statement log length when its tick began
+	promotions        []c01Promotion
+	semi              bool
+	wait              int
+	asyncLag          time.Duration
+	marked            map[string]bool // hosts marked for recovery (C11), refreshed at tick start
+	faultFree         bool
+	sawSplitBrain     bool
+	checkOptimisation bool
+	optStatus         string
 	// snap: what each host held when the issuing tick froze it (proc -> host -> set). The
 	// promotion clause is evaluated against this and the current holdings, so that discarding
 	// a received transaction between freeze and promotion cannot hide it.
@@ -136,6 +139,15 @@ func (s *sim) installC01Monitor(cs *c01State) {
 		}
 		if _, casc := s.opts.Cascade[st.Target]; casc {
 			s.report("c16-cascade-promoted", "cascade replica %s is made writable by %s", st.Target, st.Issuer)
+		}
+		// C19: never promoted while registered as optimising or carrying the relaxed settings
+		if cs.checkOptimisation {
+			_, registered := s.zkGet("optimization_nodes/" + st.Target)
+			relaxed := x.FlushLog == mysql.OptimalInnodbFlushLogAtTrxCommitValue && x.SyncBin == mysql.OptimalSyncBinlogValue
+			if registered || relaxed {
+				s.report(fmt.Sprintf("c19-promoted-while-optimising:registered=%v,relaxed=%v,status=%s", registered, relaxed, cs.optStatus), "%s makes %s writable while it is registered in optimization_nodes=%v and carries relaxed durability settings=%v (innodb_flush_log_at_trx_commit=%d sync_binlog=%d)",
+					st.Issuer, st.Target, registered, relaxed, x.FlushLog, x.SyncBin)
+			}
 		}
 		// the bound: members of the published list that are frozen now and hold nothing X has not executed
 		young := func(t vs.Txn) bool { return cs.asyncLag > 0 && st.At.Sub(t.At) < cs.asyncLag }
